@@ -3,7 +3,7 @@ from .. import core
 from ..engines import abc
 
 PROP = "C17"
-BUDGET = {"quick": 220, "thorough": 6000}
+BUDGET = {"quick": 400, "thorough": 8000}
 ALARM_S = 1800
 RULE = ("small inference problems on catalogue models (1-2 inferred parameters plus optionally an initial state, optionally "
         "with the population-size constraint), N in 20..60, G in 1..4, tolerance list or quantile q, M in {None, N-1, smaller}, "
